@@ -710,7 +710,10 @@ func randDigits(r *rand.Rand, n int, leadNonZero bool) string {
 func kindConv() kind {
 	ints := []string{"0", "1", "2", "9", "123456789", "120000000", "999999999", "1000000000", "1000000001",
 		"9007199254740991", "9007199254740992", "9007199254740993", "18014398509481985",
-		"123456789123456789", "999999999999999999999"}
+		"123456789123456789", "999999999999999999999",
+		// whole-FUND parts beyond 2^63 (28–30 digit nund amounts)
+		"9223372036854775807999999999", "9223372036854775808000000000", "9876543210987654321123456789", "18446744073709551616000000001",
+		"123456789012345678901234567890", "999999999999999999999999999999"}
 	for k := int64(1); k <= 20; k++ {
 		ints = append(ints, add(p10(k), -1).String(), p10(k).String(), add(p10(k), 1).String())
 	}
@@ -743,6 +746,9 @@ func kindConv() kind {
 		},
 		func(r *rand.Rand) string {
 			nd := 1 + r.Intn(21)
+			if r.Intn(8) == 0 {
+				nd = 22 + r.Intn(9) // up to 30 digits
+			}
 			ip := randDigits(r, nd, true)
 			if nd == 1 && r.Intn(3) == 0 {
 				ip = "0"
